@@ -577,6 +577,8 @@ package rsm
 //@ trusted digest of the block checksums (kept by the block writer)
 //@ extern time Now
 //@ extern time (t Time) UnixNano
+//@ iface (w IVWriter) GetVersion
+//@ ensures true
 //@ func (sw *SnapshotWriter) saveHeader [C16 C14]
 //@ noframe
 //@ nobounds
